@@ -128,9 +128,38 @@ def _flake(case):
         obs["traj_rows"] = None
     else:
         obs["traj_cols"] = [str(c) for c in tdf.columns]
-        obs["traj_rows"] = [[str(g), int(v), str(s), _b(tm), _b(val)]
-                            for g, v, s, tm, val in zip(tdf["group"], tdf["vial"], tdf["state"], tdf["Time"], tdf["value"])]
+        obs["traj_rows"] = _traj_obs(tdf)
+    # further exports on the SAME object with other arguments (the table is a function of the arguments only)
+    obs["more"] = []
+    for step in case.get("more", []):
+        try:
+            if "plot" in step:
+                import matplotlib.pyplot as plt
+
+                try:
+                    S.plot(**step["plot"])
+                    obs["more"].append({"plot": "ok"})
+                except Exception as e:
+                    # plotting is not the property's subject (e.g. "No data for ..." when no recorded vial is in the
+                    # requested group); the step only matters as something that happened before the next export
+                    obs["more"].append({"plot": "raised " + core.exc_class(e)})
+                plt.close("all")
+            elif step.get("rerun"):
+                S.run()
+                obs["more"].append({"rerun": "ok", "same_X": [[_b(x) for x in row] for row in S._X] == obs["X"]})
+            else:
+                sdf2, tdf2 = S.to_frame(n_timeSteps=step["n"])
+                obs["more"].append({"n": step["n"], "traj_rows": None if tdf2 is None else _traj_obs(tdf2),
+                                    "stats_rows": [[str(g), int(v), str(var), _b(val)] for g, v, var, val in
+                                                   zip(sdf2["group"], sdf2["vial"], sdf2["variable"], sdf2["value"])]})
+        except Exception as e:
+            obs["more"].append({"raise": core.exc_class(e)})
     return obs
+
+
+def _traj_obs(tdf):
+    return [[str(g), int(v), str(s), _b(tm), _b(val)]
+            for g, v, s, tm, val in zip(tdf["group"], tdf["vial"], tdf["state"], tdf["Time"], tdf["value"])]
 
 
 ACCESSORS = {"tnuc": "nucleationTimes", "Tnuc": "nucleationTemperatures", "tsol": "solidificationTimes"}
@@ -358,6 +387,21 @@ def compare(case, impl, model):
                 dis.append(f"trajectory table columns {impl['traj_cols']}")
         if impl["stats_cols"] != ["group", "vial", "variable", "value"]:
             dis.append(f"stats table columns {impl['stats_cols']}")
+        for mi, mo in enumerate(impl.get("more", [])):
+            if "n" not in mo:
+                if mo.get("same_X") is False:
+                    dis.append(f"export history step {mi}: a re-run of the same object changed the stored states")
+                continue
+            r2 = drv.call({"op": "c17_flake", "labels": labels, "stats": impl["stats"], "X": impl["X"], "t": impl["t"],
+                           "n": mo["n"], "vials": impl["vials"], "tlabels": tlabels})
+            if isinstance(r2["traj"], dict) or (r2["traj"] is None) != (mo["traj_rows"] is None):
+                dis.append(f"export {mi + 2} on the same object (n_timeSteps={mo['n']}): impl table vs model {r2['traj'] if isinstance(r2['traj'], dict) else 'None-ness differs'}")
+                continue
+            d = None if r2["traj"] is None else _diff(mo["traj_rows"], r2["traj"],
+                                                      f"trajectory table of export {mi + 2} on the same object (n_timeSteps={mo['n']}, after {case['more'][:mi]})")
+            d = d or _diff(mo["stats_rows"], r2["stats"], f"stats table of export {mi + 2}")
+            if d:
+                dis.append(d)
     else:
         if impl["frame"] != "ok":
             dis.append(f"Snowfall.to_frame raised {impl['frame']}")
@@ -480,44 +524,51 @@ def predicates(case, impl):
                 out.append(Failure(clause="traj_table_exact", key="traj_table_exact|Snowflake.run|subset-of-full-recording",
                                    detail=f"storeStates={case['store']}: stored vials {vials} / states differ from the "
                                           f"rows of the same run recorded with storeStates='all'"))
-        tr = impl["traj_rows"]
-        if m == 0:
-            if tr is not None:
-                out.append(Failure(clause="traj_table_exact", key="traj_table_exact|Snowflake.to_frame|not-none",
-                                   detail="nothing recorded but a trajectory table is returned"))
-            return out
-        if tr is None:
-            out.append(Failure(clause="traj_table_exact", key="traj_table_exact|Snowflake.to_frame|none",
-                               detail="vials recorded but no trajectory table"))
-            return out
-        # sampled times: a strided subset of the columns, starting at column 0
-        col_of = {}
-        for c, tv in enumerate(t[:ncols]):
-            col_of.setdefault(tv, c)
-        times = sorted({r[3] for r in tr}, key=lambda b: col_of.get(b, 1 << 60))
-        cols = [col_of.get(b) for b in times]
-        bad = None
-        if None in cols:
-            bad = "a Time value is not a time of the run"
-        elif cols[0] != 0:
-            bad = "the first sample is not the first time"
-        elif len(cols) > 1 and any(cols[i + 1] - cols[i] != cols[1] - cols[0] for i in range(len(cols) - 1)):
-            bad = "samples are not evenly strided"
-        elif len(cols) < min(ncols, n - 1):
-            bad = f"{len(cols)} samples for {ncols} columns and n_timeSteps={n}"
-        if bad:
-            out.append(Failure(clause="traj_table_exact", key="traj_table_exact|Snowflake.to_frame|sampling",
-                               detail=bad))
-            return out
-        want = Counter()
-        for j, v in enumerate(vials):
-            for c in cols:
-                want[(v, "temperature", t[c], X[j][c])] += 1
-                want[(v, "sigma", t[c], X[m + j][c])] += 1
-        got = Counter((r[1], r[2], r[3], r[4]) for r in tr)
-        if got != want:
-            out.append(Failure(clause="traj_table_exact", key="traj_table_exact|Snowflake.to_frame|values",
-                               detail=f"missing {list((want - got).elements())[:3]}, unexpected {list((got - want).elements())[:3]}"))
+        exports = [(n, impl["traj_rows"], "first export")]
+        for mi, mo in enumerate(impl.get("more", [])):
+            if "raise" in mo:
+                out.append(Failure(clause="traj_table_exact", key=f"traj_table_exact|Snowflake.to_frame|raises:{mo['raise']}|repeated-export",
+                                   detail=f"export {mi + 2} on the same object ({case['more'][mi]}) raises {mo['raise']}"))
+            elif "traj_rows" in mo:
+                exports.append((mo["n"], mo["traj_rows"], f"export {mi + 2} on the same object after {case['more'][:mi]}"))
+        for n, tr, which in exports:
+            if m == 0:
+                if tr is not None:
+                    out.append(Failure(clause="traj_table_exact", key="traj_table_exact|Snowflake.to_frame|not-none",
+                                       detail="nothing recorded but a trajectory table is returned"))
+                continue
+            if tr is None:
+                out.append(Failure(clause="traj_table_exact", key="traj_table_exact|Snowflake.to_frame|none",
+                                   detail="vials recorded but no trajectory table"))
+                continue
+            # sampled times: a strided subset of the columns, starting at column 0
+            col_of = {}
+            for c, tv in enumerate(t[:ncols]):
+                col_of.setdefault(tv, c)
+            times = sorted({r[3] for r in tr}, key=lambda b: col_of.get(b, 1 << 60))
+            cols = [col_of.get(b) for b in times]
+            bad = None
+            if None in cols:
+                bad = "a Time value is not a time of the run"
+            elif cols[0] != 0:
+                bad = "the first sample is not the first time"
+            elif len(cols) > 1 and any(cols[i + 1] - cols[i] != cols[1] - cols[0] for i in range(len(cols) - 1)):
+                bad = "samples are not evenly strided"
+            elif len(cols) < min(ncols, n - 1):
+                bad = f"{len(cols)} samples for {ncols} columns and n_timeSteps={n}"
+            if bad:
+                out.append(Failure(clause="traj_table_exact", key="traj_table_exact|Snowflake.to_frame|sampling" + ("" if which == "first export" else "|repeated-export"),
+                                   detail=f"{which} (n_timeSteps={n}): {bad}"))
+                continue
+            want = Counter()
+            for j, v in enumerate(vials):
+                for c in cols:
+                    want[(v, "temperature", t[c], X[j][c])] += 1
+                    want[(v, "sigma", t[c], X[m + j][c])] += 1
+            got = Counter((r[1], r[2], r[3], r[4]) for r in tr)
+            if got != want:
+                out.append(Failure(clause="traj_table_exact", key="traj_table_exact|Snowflake.to_frame|values" + ("" if which == "first export" else "|repeated-export"),
+                                   detail=f"missing {list((want - got).elements())[:3]}, unexpected {list((got - want).elements())[:3]}"))
     else:
         if impl["frame"] != "ok":
             out.append(Failure(clause="fall_table_exact", key=f"fall_table_exact|Snowfall.to_frame|raises:{impl['frame']['raise']}",
@@ -574,6 +625,8 @@ def classify(case, impl):
             tags.append(rel)
         tags.append(f"dt={case['dt']}")
         tags.append(f"store={case['store']}")
+        if case.get("more"):
+            tags.append("export history: " + "-".join("plot" if "plot" in m else "rerun" if m.get("rerun") else "frame" for m in case["more"]))
         if isinstance(impl.get("frame"), dict):
             tags.append("to_frame raises " + impl["frame"]["raise"])
     else:
@@ -631,6 +684,27 @@ def cases(rng, tier):
                 nv = rng.choice(SHAPES)
                 yield dict(kind="flake", nv=nv, store=rng.choice(_stores(rng, nv)), ncols=ncols, n=n,
                            dt=rng.choice([1, 2.0, 0.5]), seed=rng.randrange(50))
+    # export histories on ONE object: other n_timeSteps, plots in between, a re-run, the first argument again
+    for _ in range(24 if quick else 200):
+        nv = rng.choice([[2, 2, 1], [3, 3, 1], [3, 2, 1]])
+        n = rng.choice([2, 3, 4, 7, 250])
+        more = []
+        for _ in range(rng.randint(1, 4)):
+            k = rng.random()
+            if k < 0.6:
+                more.append({"n": rng.choice([x for x in (2, 3, 4, 5, 9, 250) if x != n])})
+            elif k < 0.75:
+                more.append({"plot": rng.choice([dict(kind="trajectories", what="temperature"),
+                                                 dict(kind="trajectories", what="sigma", group="corner"),
+                                                 dict(kind="box", what="t_nucleation")])})
+            elif k < 0.85:
+                more.append({"rerun": True})
+            else:
+                more.append({"n": n})
+        if not any("n" in m and m["n"] != n for m in more):
+            more.append({"n": 3 if n != 3 else 5})
+        yield dict(kind="flake", nv=nv, store=rng.choice(["all", "corner", [0, 2], [3, 1]]), ncols=rng.choice([12, 40, 90]),
+                   n=n, dt=rng.choice([1, 2.0]), seed=rng.randrange(50), more=more)
     # default n_timeSteps on the kind of run the tests use, and a short one
     yield dict(kind="flake", nv=[3, 3, 1], store="all", ncols=16, n=250, dt=2.0, seed=1)
     # np.arange rounding: len(_t) = N + 1
